@@ -14,8 +14,8 @@ from .core import Violation, hyp_run, loop_run, Res, TimeLimit
 
 PROPERTY = 'C17'
 RULE = ('operation sequences over xtuml.OrderedSet and xtuml.QuerySet: exhaustive product of a '
-        '50-call alphabet (add/discard/remove x, pop last/first, clear, iterate-discarding-current forwards and in reverse, '
-        '|= &= -= ^= with operands [], [0], (1,2), OrderedSet[2,1,0], the repeating list [2,0,2] and self, |= with an operand that fails half way (iterator raising, unhashable element), s = s|&-^ operand) '
+        '54-call alphabet (add/discard/remove x, pop last/first, clear, iterate-discarding-current forwards and in reverse, '
+        '|= &= -= ^= with operands [], [0], (1,2), OrderedSet[2,1,0], the repeating list [2,0,2] and self, |= with an operand that fails half way (iterator raising, unhashable element), & ^ &= -= with operands that can be walked once only (iterator, generator), s = s|&-^ operand) '
         'on universe {0,1,2} up to the stated length, plus Hypothesis sequences up to length 60 '
         'over 8 elements; full comparison with the list/set model after the last call of every '
         'sequence (every prefix is itself an enumerated sequence) and of every return value on '
@@ -60,6 +60,10 @@ def operand(cls, spec, real):
         return xtuml.OrderedSet(list(vals))
     if kind == 'same':
         return cls(list(vals))
+    if kind == 'iter':
+        return iter(list(vals))          # can be walked once only
+    if kind == 'gen':
+        return (v for v in list(vals))
     raise ValueError(kind)
 
 
@@ -337,6 +341,8 @@ def alphabet(universe, reduced=False):
         for n in ('or', 'and', 'sub', 'xor'):
             for o in (('list', (0,)), ('oset', (1, 2))):
                 ops.append((n, o))
+        # operands that can be walked only once
+        ops += [('and', ('iter', (2, 1, 0))), ('xor', ('gen', (1, 0))), ('iand', ('iter', (2, 0))), ('isub', ('gen', (1, 2)))]
     return ops
 
 
@@ -344,7 +350,7 @@ def op_strategy(universe):
     u = st.sampled_from(universe)
     vals = st.one_of(st.lists(u, unique=True, max_size=6), st.lists(u, max_size=6)).map(tuple)
     operand_s = st.one_of(
-        st.tuples(st.sampled_from(['list', 'tuple', 'oset', 'same']), vals),
+        st.tuples(st.sampled_from(['list', 'tuple', 'oset', 'same', 'iter', 'gen']), vals),
         st.just(('self', ())))
     return st.one_of(
         st.tuples(st.just('add'), u), st.tuples(st.just('add'), u),
@@ -355,7 +361,7 @@ def op_strategy(universe):
         st.tuples(st.just('iterdiscard'), st.sampled_from(['all', 'even', 'odd']), st.just('rev')),
         st.tuples(st.sampled_from(['ior', 'iand', 'isub', 'ixor']), operand_s),
         st.tuples(st.sampled_from(['or', 'and', 'sub', 'xor']),
-                  st.tuples(st.sampled_from(['list', 'tuple', 'oset', 'same']), vals)),
+                  st.tuples(st.sampled_from(['list', 'tuple', 'oset', 'same', 'iter', 'gen']), vals)),
         st.tuples(st.just('ior_fail'), st.lists(u, min_size=1, max_size=5).map(tuple), st.integers(0, 5),
                   st.sampled_from(['raise', 'hash']), st.booleans()).map(lambda t: (t[0], t[1], min(t[2], len(t[1])), t[3], t[4])),
     )
